@@ -31,7 +31,7 @@ fn strip(log: &[Rec]) -> Vec<Rec> {
 fn gen_case(rng: &mut Rng, small: bool) -> Case {
     let encs = gen::ascii_compatible_encodings();
     let enc = if rng.chance(2, 3) { encoding_rs::UTF_8 } else { *rng.pick(&encs) };
-    let mut cfg = Config { encoding: enc.name().to_string(), strict: rng.chance(1, 4), send: true, ..Default::default() };
+    let mut cfg = Config { encoding: enc.name().to_string(), strict: rng.chance(1, 4), send: true, adjust_charset: rng.chance(1, 3), ..Default::default() };
     gen::observer_config(rng, &mut cfg);
     let rawb = rng.chance(1, 8);
     let input = gen::soup(rng, if small { 5 } else { 25 }, SoupKind::Any, rawb);
@@ -206,7 +206,68 @@ pub fn isolation(rng: &mut Rng) -> Result<usize, (String, String)> {
     if let Some(m) = problem {
         return Err(("last-error-not-thread-local".into(), m));
     }
-    Ok(2)
+    twins(rng)?;
+    Ok(3)
+}
+
+/// Two configurations that differ only in the ASCII case of a case-sensitive selector part (class, id, attribute value)
+/// must keep behaving as two different configurations whatever was parsed or run before in this process or
+/// concurrently on other threads (a process-wide cache keyed too coarsely would merge them).
+pub fn twins(rng: &mut Rng) -> Result<(), (String, String)> {
+    let len = rng.range(2, 7);
+    let t: String = (0..len).map(|_| (b'a' + rng.below(26) as u8) as char).collect();
+    let k = rng.below(len);
+    let t2: String = t.chars().enumerate().map(|(i, c)| if i == k { c.to_ascii_uppercase() } else { c }).collect();
+    let kind = rng.below(3);
+    let sel = |v: &str| match kind {
+        0 => format!(".{v}"),
+        1 => format!("#{v}"),
+        _ => format!("[data-k=\"{v}\"]"),
+    };
+    let doc = format!("<p class=\"{t}\" id=\"{t}\" data-k=\"{t}\">a</p><p class=\"{t2}\" id=\"{t2}\" data-k=\"{t2}\">b</p>");
+    let second = doc.find("</p>").unwrap() + 4;
+    let run = |s: String| -> Result<Vec<usize>, String> {
+        let cfg = Config { send: true, el: vec![engine::ElH { selector: s, element: true, ..Default::default() }], ..Default::default() };
+        let r = engine::run(&cfg, doc.as_bytes(), &[])?;
+        Ok(r.log.iter().filter_map(|r| if let Rec::El(e) = r { Some(e.start) } else { None }).collect())
+    };
+    let order: [(&str, usize); 2] = if rng.bool() { [(&t, 0), (&t2, second)] } else { [(&t2, second), (&t, 0)] };
+    let describe = |v: &str, got: &[usize], want: usize| format!("selector {:?} on {doc:?} matched the start tags at {got:?}, expected exactly the one at {want} (its case twin was parsed in the same process)", sel(v));
+    for (v, want) in order {
+        let got = run(sel(v)).map_err(|e| ("harness".to_string(), e))?;
+        if got != vec![want] {
+            return Err(("case-twin-configurations-merged".into(), describe(v, &got, want)));
+        }
+    }
+    // and concurrently, parsed at the same moment on two threads
+    let b = Arc::new(Barrier::new(2));
+    let mut bad: Option<String> = None;
+    std::thread::scope(|sc| {
+        let hs: Vec<_> = order
+            .iter()
+            .map(|&(v, want)| {
+                let b = b.clone();
+                let run = &run;
+                let s = sel(v);
+                sc.spawn(move || {
+                    b.wait();
+                    (run(s), want, v)
+                })
+            })
+            .collect();
+        for h in hs {
+            let (got, want, v) = h.join().unwrap();
+            match got {
+                Ok(g) if g == vec![want] => {}
+                Ok(g) => bad = Some(describe(v, &g, want)),
+                Err(e) => bad = Some(e),
+            }
+        }
+    });
+    if let Some(m) = bad {
+        return Err(("case-twin-configurations-merged".into(), m));
+    }
+    Ok(())
 }
 
 impl Prop for C18 {
@@ -214,7 +275,7 @@ impl Prop for C18 {
         "C18"
     }
     fn rule(&self) -> String {
-        "groups of 2-6 generated rewrites (send handler types; observers and mutating scripts; injected failures and memory limits; bail-out handlers): each is run twice sequentially (must be identical), then all of them concurrently on their own threads released by a barrier with random yields (each must equal its sequential run), then as a send::HtmlRewriter moved to a freshly spawned thread for every write() and for end(); concurrent Selector parsing on 4 threads; C API last-error ping-pong choreographed with barriers; the same workload runs under ThreadSanitizer (any report fails the run) and, small, under Miri's data-race detector; non-trivial: >= 2 threads were inside lol-html at the same time (in-flight counter); distinct = hash(group)".into()
+        "groups of 2-6 generated rewrites (send handler types; observers and mutating scripts; injected failures and memory limits; bail-out handlers): each is run twice sequentially (must be identical), then all of them concurrently on their own threads released by a barrier with random yields (each must equal its sequential run), then as a send::HtmlRewriter moved to a freshly spawned thread for every write() and for end(); concurrent Selector parsing on 4 threads; case-twin selectors (differing only in the ASCII case of a class / id / attribute value) run after each other and concurrently must stay distinct; C API last-error ping-pong choreographed with barriers; the same workload runs under ThreadSanitizer (any report fails the run) and, small, under Miri's data-race detector; non-trivial: >= 2 threads were inside lol-html at the same time (in-flight counter); distinct = hash(group)".into()
     }
     fn assumptions(&self) -> Vec<String> {
         vec!["a future global guarded by a lock that does not change results is invisible to this family".into()]
